@@ -78,6 +78,7 @@ func loadEngine(repo string) (*Engine, error) {
 	eng.indexTypes()
 	eng.indexGlobals()
 	eng.indexFieldWrites()
+	eng.synthesizeImplViews()
 	if dumpFields {
 		for _, t := range eng.namedTypes {
 			if st, ok := t.Underlying().(*types.Struct); ok {
@@ -673,5 +674,127 @@ func (e *Engine) indexFieldWrites() {
 			}
 			return true
 		})
+	}
+}
+
+// fieldIsRef: heap key "T.f" or "T.f.g" names a field of pointer or interface type
+func (e *Engine) fieldIsRef(key string) bool {
+	parts := strings.Split(key, ".")
+	if len(parts) < 2 {
+		return false
+	}
+	t := e.lookupType(parts[0])
+	if t == nil {
+		return false
+	}
+	for _, f := range parts[1:] {
+		st, ok := t.Underlying().(*types.Struct)
+		if !ok {
+			return false
+		}
+		var ft types.Type
+		for i := 0; i < st.NumFields(); i++ {
+			if st.Field(i).Name() == f {
+				ft = st.Field(i).Type()
+			}
+		}
+		if ft == nil {
+			return false
+		}
+		t = ft
+	}
+	switch t.Underlying().(type) {
+	case *types.Pointer, *types.Interface:
+		return true
+	}
+	return false
+}
+
+// synthesizeImplViews: behavioural subtyping. For an interface-method contract `iface I.m` with a `conform` clause, every listed
+// in-package implementer T gets a view "T.m@impl:I" whose contract is the interface contract (receiver name `recv`), with the loop
+// invariants, lemma uses and entry assumptions of T.m's own contract. Verifying the view checks T.m's body against what callers
+// through the interface assume.
+func (e *Engine) synthesizeImplViews() {
+	for _, k := range append([]string(nil), e.specs.Order...) {
+		ict := e.specs.Contracts[k]
+		if ict == nil || ict.Kind != "iface" || len(ict.Conform) == 0 {
+			continue
+		}
+		dot := strings.Index(k, ".")
+		if dot < 0 {
+			continue
+		}
+		iname, mname := k[:dot], k[dot+1:]
+		it := e.lookupType(iname)
+		if it == nil {
+			continue
+		}
+		iface, ok := it.Underlying().(*types.Interface)
+		if !ok {
+			continue
+		}
+		want := map[string]bool{}
+		all := false
+		for _, c := range ict.Conform {
+			if c == "all" {
+				all = true
+			}
+			want[c] = true
+		}
+		for _, nt := range e.namedTypes {
+			if types.IsInterface(nt) {
+				continue
+			}
+			n, ok := nt.(*types.Named)
+			if !ok {
+				continue
+			}
+			if !types.Implements(nt, iface) && !types.Implements(types.NewPointer(nt), iface) {
+				continue
+			}
+			tn := n.Obj().Name()
+			if !all && !want[tn] {
+				continue
+			}
+			fkey := tn + "." + mname
+			fi := e.funcs[fkey]
+			if fi == nil || fi.Body == nil {
+				continue // promoted from an embedded field, or declared elsewhere
+			}
+			if fi.Sig.Recv() != nil {
+				if _, isPtr := fi.Sig.Recv().Type().Underlying().(*types.Pointer); !isPtr {
+					continue // value receivers are boxed when seen through the interface: not supported by the view
+				}
+			}
+			vkey := fkey + "@impl:" + iname
+			if e.specs.Contracts[vkey] != nil {
+				continue
+			}
+			cp := *ict
+			cp.Key = vkey
+			cp.Kind = "func"
+			cp.RecvName = "recv"
+			cp.ImplOf = k
+			cp.Conform = nil
+			cp.Trusted = false
+			cp.Loops = nil
+			cp.Uses = nil
+			cp.Assumes = nil
+			if own := e.specs.Contracts[fkey]; own != nil && own.Kind == "func" {
+				cp.Loops = own.Loops
+				cp.Uses = own.Uses
+				cp.Assumes = own.Assumes
+				cp.AltRecv = own.RecvName
+				cp.AltParams = own.Params
+				if len(cp.Serves) == 0 {
+					cp.Serves = own.Serves
+				}
+				if cp.Options == nil {
+					cp.Options = own.Options
+				}
+			}
+			e.specs.Contracts[vkey] = &cp
+			e.specs.Order = append(e.specs.Order, vkey)
+		}
 	}
 }
